@@ -71,6 +71,8 @@ pub struct WorldSpec {
     /// follow modes: the descriptor handed to the follower is positioned here first (an inherited descriptor such
     /// as redirected stdin need not be at byte 0)
     pub pre_seek: Option<u64>,
+    /// TZ environment variable for this world (POSIX form such as "JST-9"); None = UTC
+    pub tz: Option<String>,
 }
 
 impl WorldSpec {
@@ -97,6 +99,7 @@ impl WorldSpec {
             poll_cost_ns: 0,
             pipe_inputs: false,
             pre_seek: None,
+            tz: None,
         }
     }
 }
@@ -173,9 +176,10 @@ impl WorldResult {
                 EvKind::Print => 6,
                 EvKind::GetRandom => 7,
                 EvKind::Deliver => 8,
+                EvKind::Stat => 9,
             };
             mix(k);
-            if matches!(e.kind, EvKind::Read | EvKind::Seek | EvKind::Open) {
+            if matches!(e.kind, EvKind::Read | EvKind::Seek | EvKind::Open | EvKind::Stat) {
                 mix(e.ret as u64);
                 mix(e.landed as u64);
                 mix(e.file as u64);
@@ -246,7 +250,20 @@ fn drive(spec: &WorldSpec, running: Arc<AtomicBool>) -> DriverOut {
             // metadata and path resolution of a simulated file
             let len = file.metadata().map(|m| m.len() as i64).unwrap_or(-1);
             let canon = std::fs::canonicalize(&spec.files[0].0).map(|p| p.display().to_string()).unwrap_or_else(|e| format!("error {}", e));
-            seam::with_world(|w| w.on_deliver(format!("meta {} {}", len, canon).as_bytes()));
+            // a duplicated descriptor shares the file offset and stays inside the simulation
+            let dup_ok = match file.try_clone() {
+                Ok(mut copy) => {
+                    let mut a = [0u8; 2];
+                    let mut b = [0u8; 3];
+                    let mut original = &file;
+                    let r1 = original.read(&mut a).unwrap_or(0);
+                    let r2 = copy.read(&mut b).unwrap_or(0);
+                    let pos = copy.seek(SeekFrom::Start(0)).unwrap_or(99);
+                    r1 == 2 && r2 == 3 && &a == b"fi" && &b == b"rst" && pos == 0
+                }
+                Err(_) => false,
+            };
+            seam::with_world(|w| w.on_deliver(format!("meta {} {} dup={}", len, canon, dup_ok).as_bytes()));
             let mut reader = BufReader::with_capacity(8, file);
             let _ = reader.seek(SeekFrom::End(0));
             let _ = reader.seek(SeekFrom::Start(0));
@@ -498,6 +515,10 @@ pub fn run_world(spec: &WorldSpec) -> WorldResult {
             let running = Arc::new(AtomicBool::new(true));
             let mut world = Box::new(World::new());
             for (path, data) in &spec2.files {
+                // the same path may be named more than once on the command line: one file, opened twice
+                if world.files.iter().any(|f| f.path == *path) {
+                    continue;
+                }
                 let idx = world.add_file(path, data.clone());
                 world.files[idx].pipe = spec2.pipe_inputs;
             }
@@ -518,11 +539,14 @@ pub fn run_world(spec: &WorldSpec) -> WorldResult {
             world.poll_cost_ns = spec2.poll_cost_ns;
             world.hard_stop = Some(hard_tx);
             seam::install(world);
+            // the process environment belongs to the scenario too: one SUT thread at a time, nobody else reads it
+            std::env::set_var("TZ", spec2.tz.as_deref().unwrap_or("UTC"));
 
             let spec3 = spec2.clone();
             let running2 = running.clone();
             let result = std::panic::catch_unwind(std::panic::AssertUnwindSafe(move || drive(&spec3, running2)));
             let _ = std::io::stdout().flush();
+            std::env::set_var("TZ", "UTC");
             let world = seam::uninstall();
             let (status, total_lines, total_result_rows) = match result {
                 Ok(out) => (out.status, out.total_lines, out.total_result_rows),
